@@ -374,6 +374,17 @@ def observe_step(ct, net, tree, arrays, want_value=True):
         except Exception as e:
             if np.all(ref != 0):
                 out["errors"].append(("contract-strip", core.exc_text(e)))
+    if want_value:
+        # a contractor taken from a COPY of the tree and called with a per-call override: what THIS object computes with its
+        # default options afterwards (first key below) must not change
+        try:
+            twin = obs.copy()
+            fn = twin.get_contractor()
+            sub = twin.slice_arrays(arrays, 0) if twin.sliced_inds else arrays
+            with np.errstate(all="ignore"):
+                fn(*sub, strip_exponent=True)
+        except Exception:
+            pass
     for ki, key in enumerate(CONTRACT_KEYS):
         try:
             steps = observe.compiled_program(obs, **key)
@@ -458,7 +469,10 @@ def run_history(ct, net, ssa0, abstract_ops, seed, arrays=None):
             side_state.append((k, observe.children_of(side[-1]), observe.sliced_of(net, side[-1]),
                                o["rebuild"], o["value_bad"], [w for w, _ in o["errors"]], _snapkey(o["snap"])))
         if "value" in extra:
-            got = np.asarray(extra["value"])
+            try:
+                got = np.asarray(extra["value"])
+            except ValueError:
+                got = np.empty((0, 0, 0, 0, 0, 0, 0))      # (not an array at all, e.g. a (mantissa, exponent) pair)
             if got.shape != o["ref"].shape or not np.array_equal(got, o["ref"]):
                 res["findings"].append((k, cop["op"], "value", "tree.contract on the live tree returned a wrong value/shape"))
         for what, msg in o["errors"]:
